@@ -214,10 +214,41 @@ def op_sources(o):
     return []
 
 
+def default_ns_meets_prefix(real, o, live):
+    """finding C01-13f: an offered subtree carries a default-namespace declaration for a namespace that is bound to a
+    *prefix* where it lands: lxml strips the declaration as redundant, the in-scope default namespace of the subtree
+    changes and with it the presented namespace of its un-prefixed attributes (decided on the real lxml objects)"""
+    tgt = real.objs.get(o[1])
+    if tgt is None:
+        return False
+    if o[0] in ("append", "prepend", "insert", "setitem"):
+        ctx = tgt._etree_obj if isinstance(tgt, TagNode) else None
+        if o[0] == "setitem" and ctx is not None and len(ctx):
+            pass
+    else:
+        par = tgt.parent if not isinstance(tgt, TextNode) or tgt._position != 0 else None
+        try:
+            par = tgt.parent
+        except Exception:  # noqa: BLE001
+            par = None
+        ctx = par._etree_obj if par is not None else None
+    if ctx is None:
+        return False
+    bound = {v for k, v in ctx.nsmap.items() if k is not None}
+    for s in op_sources(o):
+        if s[0] == "node" and isinstance(real.objs.get(s[1]), TagNode):
+            for e in real.objs[s[1]]._etree_obj.iter():
+                if isinstance(e.tag, str) and e.nsmap.get(None) in bound:
+                    return True
+    return False
+
+
 def skip_op(real, o, w, F):
     """operations outside the modelled domain (named in the evidence rule)"""
     live = live_nodes(w)
     tgt = live.get(o[1])
+    if default_ns_meets_prefix(real, o, live):
+        return "default-namespace declaration of the offered subtree meets a prefix binding of the same namespace (finding C01-13f)"
     for s in op_sources(o):
         if s[0] == "node":
             sk = live[s[1]]
